@@ -48,6 +48,15 @@ def _norm_mono(d, coef):
     return tuple(sorted(out.items())), coef
 
 
+OPAQUE = {}     # name of an opaque atom "(<poly>)" -> the polynomial it stands for
+
+
+def _opaque(p):
+    name = "(" + repr(p) + ")"
+    OPAQUE[name] = p
+    return name
+
+
 class P:
     __slots__ = ("t",)
 
@@ -155,7 +164,7 @@ class P:
             if c < 0:
                 if e.denominator != 1:
                     # (-x)**(p/q): keep the sign inside an opaque atom
-                    return P.atom("(" + repr(self) + ")", e)
+                    return P.atom(_opaque(self), e)
                 sign = -1 if int(e) % 2 else 1
                 c = -c
             if e.denominator == 1:
@@ -172,7 +181,7 @@ class P:
             for _ in range(int(e)):
                 r = r * self
             return r
-        return P.atom("(" + repr(self) + ")", e)
+        return P.atom(_opaque(self), e)
 
     def __eq__(self, o):
         return self.t == asP(o).t
